@@ -7,6 +7,7 @@ import (
 	"sort"
 	"strings"
 	"sync"
+	"sync/atomic"
 	"time"
 
 	"github.com/ontio/ontology-crypto/keypair"
@@ -84,6 +85,8 @@ type capFixture struct {
 	old    *ledger.Ledger
 	s      *proc.TXPoolServer
 	txPid  *actor.PID
+	poolPid *actor.PID // the actor consensus talks to (GetTxnPoolReq, SaveBlockCompleteMsg)
+	vHeight uint32     // ledger height the harness validators report (atomic)
 	rspPid *actor.PID
 	v1, v2 *actor.PID
 	pool   *tc.TXPool
@@ -95,7 +98,7 @@ type capFixture struct {
 	dirty  bool
 }
 
-var capFx *capFixture
+var capFx, srvFx *capFixture // one fixture for the capacity part (pool kept near capacity), one for the server part
 
 var capNonce = uint32(900000)
 
@@ -112,16 +115,39 @@ func (fx *capFixture) close() {
 	fx.v1.Stop()
 	fx.v2.Stop()
 	fx.s.Stop()
-	ledger.DefLedger = fx.old
+	// the admission check reads ledger.DefLedger: keep it on a live ledger (all fixtures have the same genesis)
+	ledger.DefLedger = nil
+	for _, o := range []*capFixture{capFx, srvFx} {
+		if o != nil && o != fx {
+			ledger.DefLedger = o.ch.Ledger
+		}
+	}
 	fx.ch.Close()
 	os.RemoveAll(fx.dir)
 }
 
 func c37CapCleanup() {
-	if capFx != nil {
-		capFx.close()
-		capFx = nil
+	dropFixture(&srvFx)
+	dropFixture(&capFx)
+}
+
+func dropFixture(slot **capFixture) {
+	if *slot != nil {
+		fx := *slot
+		fx.close()
+		*slot = nil
 	}
+}
+
+// useFixture returns the slot's fixture, (re)building it if absent or left dirty by a failed case.
+func useFixture(ctx *capCtx, slot **capFixture) *capFixture {
+	if *slot != nil && (*slot).dirty {
+		dropFixture(slot)
+	}
+	if *slot == nil {
+		*slot = newCapFixture(ctx)
+	}
+	return *slot
 }
 
 func newCapFixture(ctx *capCtx) *capFixture {
@@ -141,12 +167,14 @@ func newCapFixture(ctx *capCtx) *capFixture {
 	s.RegisterActor(tc.VerifyRspActor, fx.rspPid)
 	fx.txPid = actor.Spawn(actor.FromProducer(func() actor.Actor { return proc.NewTxActor(s) }))
 	s.RegisterActor(tc.TxActor, fx.txPid)
+	fx.poolPid = actor.Spawn(actor.FromProducer(func() actor.Actor { return proc.NewTxPoolActor(s) }))
+	s.RegisterActor(tc.TxPoolActor, fx.poolPid)
 	fx.gate = make(chan struct{})
 	mkValidator := func(t vt.VerifyType) *actor.PID {
 		return actor.Spawn(actor.FromFunc(func(c actor.Context) {
 			if m, ok := c.Message().(*vt.CheckTx); ok {
 				<-fx.curGate()
-				c.Sender().Tell(&vt.CheckResponse{WorkerId: m.WorkerId, Type: t, Hash: m.Tx.Hash(), Height: 0, ErrCode: perr.ErrNoError})
+				c.Sender().Tell(&vt.CheckResponse{WorkerId: m.WorkerId, Type: t, Hash: m.Tx.Hash(), Height: atomic.LoadUint32(&fx.vHeight), ErrCode: perr.ErrNoError})
 			}
 		}))
 	}
@@ -230,7 +258,11 @@ func capRun(c c37Case) (out capOut) {
 			}
 		}
 	}()
-	capBody(ctx, c)
+	if c.Mode == "srv" {
+		srvBody(ctx, c)
+	} else {
+		capBody(ctx, c)
+	}
 	return out
 }
 
@@ -311,13 +343,7 @@ func capBody(ctx *capCtx, c c37Case) {
 	if c.Cap == nil || c.Cap.Below < 0 || c.Cap.Below > 16 {
 		ctx.Failf("harness: malformed capacity case")
 	}
-	if capFx != nil && capFx.dirty {
-		c37CapCleanup()
-	}
-	if capFx == nil {
-		capFx = newCapFixture(ctx)
-	}
-	fx := capFx
+	fx := useFixture(ctx, &capFx)
 	fx.dirty = true // cleared at the regular end of the case
 	txPid, pool := fx.txPid, fx.pool
 	fx.mu.Lock()
